@@ -1,12 +1,16 @@
 // Regenerates lean/KG/Gen/C10.lean: facts of the current sources that the C10 model relies on IMPLICITLY.
-//   - pkg/gateway/controllers/upstream_controller.go: UpstreamClusterController.Run starts the queue with a
-//     literal number of workers (`m.queue.Run(1)`). The model's histories are SEQUENCES of handler invocations;
-//     that is only what the code does when exactly one worker runs the handler.
-//   - pkg/syncqueue/queue.go: SyncQueue.Run(workers) starts exactly `workers` workers (the loop header).
-//   - pkg/gateway/proxy/options/authentication.go: ToAuthenticationConfig installs the SNI verify-options provider
-//     in a top-level `if sniVerifyOptionsProvider != nil` block of its own (not only when the control plane has a
-//     client CA).
-// The extractor FAILS when one of these places no longer has the shape it reads.
+// Both facts are SEMANTIC and three-valued: `none` means "the extractor does not understand this code" — then the
+// behavioural streams of the harness are the tie (race cases count the handler invocations in flight at once and
+// judge the invariants; auth cases run the shipped wiring with and without --client-ca-file). The theorem
+// `c10_wiring_facts` only breaks when the extractor UNDERSTANDS the code and it says something else.
+//
+//   - workersStarted: how many worker goroutines the controller starts: the integer literal (or file-level constant)
+//     the controller's Run passes to its queue's Run, pushed through SyncQueue.Run by a small concrete interpreter
+//     (clamping ifs on the parameter, one counting loop of any of the usual forms with one `go` per iteration,
+//     or `for range make([]T, n)`). The model's histories are SEQUENCES of handler invocations; that is the
+//     code's behaviour only when this is 1.
+//   - sniProviderWithoutControlPlaneCA: whether ToAuthenticationConfig installs the SNI verify-options provider
+//     somewhere that is not conditional on the control plane's client-cert configuration.
 package main
 
 import (
@@ -22,17 +26,236 @@ import (
 )
 
 func render(g *lib.Gen, n ast.Node) string {
+	if n == nil {
+		return ""
+	}
 	var b bytes.Buffer
 	printer.Fprint(&b, g.Fset(), n) //nolint
 	return b.String()
 }
 
-func leanBytes(s string) string {
-	parts := make([]string, len(s))
-	for i := 0; i < len(s); i++ {
-		parts[i] = strconv.Itoa(int(s[i]))
+// method finds a method by name whatever its receiver is called.
+func method(f *ast.File, recvType, name string) *ast.FuncDecl {
+	for _, d := range f.Decls {
+		fd, ok := d.(*ast.FuncDecl)
+		if !ok || fd.Recv == nil || fd.Name.Name != name || len(fd.Recv.List) != 1 {
+			continue
+		}
+		t := fd.Recv.List[0].Type
+		if st, ok := t.(*ast.StarExpr); ok {
+			t = st.X
+		}
+		if id, ok := t.(*ast.Ident); ok && id.Name == recvType {
+			return fd
+		}
 	}
-	return "[" + strings.Join(parts, ", ") + "]"
+	return nil
+}
+
+// ---- a concrete interpreter for "start one goroutine per iteration" functions
+
+type env map[string]int
+
+func (e env) eval(x ast.Expr) (int, bool) {
+	switch v := x.(type) {
+	case *ast.BasicLit:
+		if v.Kind == token.INT {
+			n, err := strconv.Atoi(v.Value)
+			return n, err == nil
+		}
+	case *ast.Ident:
+		n, ok := e[v.Name]
+		return n, ok
+	case *ast.ParenExpr:
+		return e.eval(v.X)
+	case *ast.BinaryExpr:
+		a, ok1 := e.eval(v.X)
+		b, ok2 := e.eval(v.Y)
+		if !ok1 || !ok2 {
+			return 0, false
+		}
+		switch v.Op {
+		case token.ADD:
+			return a + b, true
+		case token.SUB:
+			return a - b, true
+		}
+	}
+	return 0, false
+}
+
+func (e env) cond(x ast.Expr) (bool, bool) {
+	be, ok := x.(*ast.BinaryExpr)
+	if !ok {
+		if p, ok := x.(*ast.ParenExpr); ok {
+			return e.cond(p.X)
+		}
+		return false, false
+	}
+	a, ok1 := e.eval(be.X)
+	b, ok2 := e.eval(be.Y)
+	if !ok1 || !ok2 {
+		return false, false
+	}
+	switch be.Op {
+	case token.LSS:
+		return a < b, true
+	case token.LEQ:
+		return a <= b, true
+	case token.GTR:
+		return a > b, true
+	case token.GEQ:
+		return a >= b, true
+	case token.EQL:
+		return a == b, true
+	case token.NEQ:
+		return a != b, true
+	}
+	return false, false
+}
+
+// simple executes assignments / inc-dec on integers.
+func (e env) simple(s ast.Stmt) bool {
+	switch v := s.(type) {
+	case nil:
+		return true
+	case *ast.IncDecStmt:
+		id, ok := v.X.(*ast.Ident)
+		if !ok {
+			return false
+		}
+		if _, ok := e[id.Name]; !ok {
+			return false
+		}
+		if v.Tok == token.INC {
+			e[id.Name]++
+		} else {
+			e[id.Name]--
+		}
+		return true
+	case *ast.AssignStmt:
+		if len(v.Lhs) != 1 || len(v.Rhs) != 1 {
+			return false
+		}
+		id, ok := v.Lhs[0].(*ast.Ident)
+		if !ok {
+			return false
+		}
+		val, ok := e.eval(v.Rhs[0])
+		if !ok {
+			return false
+		}
+		switch v.Tok {
+		case token.ASSIGN, token.DEFINE:
+			e[id.Name] = val
+		case token.ADD_ASSIGN:
+			e[id.Name] += val
+		case token.SUB_ASSIGN:
+			e[id.Name] -= val
+		default:
+			return false
+		}
+		return true
+	}
+	return false
+}
+
+// run interprets a statement list; started counts the `go` statements executed. ok=false: not understood.
+func (e env) run(list []ast.Stmt, started *int, fuel *int) bool {
+	for _, s := range list {
+		*fuel--
+		if *fuel < 0 {
+			return false
+		}
+		switch v := s.(type) {
+		case *ast.GoStmt:
+			*started++
+		case *ast.IfStmt:
+			if v.Init != nil && !e.simple(v.Init) {
+				return false
+			}
+			c, ok := e.cond(v.Cond)
+			if !ok {
+				return false
+			}
+			if c {
+				if !e.run(v.Body.List, started, fuel) {
+					return false
+				}
+			} else if v.Else != nil {
+				switch el := v.Else.(type) {
+				case *ast.BlockStmt:
+					if !e.run(el.List, started, fuel) {
+						return false
+					}
+				case *ast.IfStmt:
+					if !e.run([]ast.Stmt{el}, started, fuel) {
+						return false
+					}
+				}
+			}
+		case *ast.ForStmt:
+			if !e.simple(v.Init) {
+				return false
+			}
+			for {
+				*fuel--
+				if *fuel < 0 {
+					return false
+				}
+				if v.Cond != nil {
+					c, ok := e.cond(v.Cond)
+					if !ok {
+						return false
+					}
+					if !c {
+						break
+					}
+				} else {
+					return false
+				}
+				if !e.run(v.Body.List, started, fuel) {
+					return false
+				}
+				if !e.simple(v.Post) {
+					return false
+				}
+			}
+		case *ast.RangeStmt:
+			// for range make([]T, n)  /  for i := range make([]T, n)
+			ce, ok := v.X.(*ast.CallExpr)
+			if !ok || len(ce.Args) < 2 {
+				return false
+			}
+			if id, ok := ce.Fun.(*ast.Ident); !ok || id.Name != "make" {
+				return false
+			}
+			n, ok := e.eval(ce.Args[1])
+			if !ok {
+				return false
+			}
+			for i := 0; i < n; i++ {
+				if !e.run(v.Body.List, started, fuel) {
+					return false
+				}
+			}
+		case *ast.AssignStmt, *ast.IncDecStmt:
+			if !e.simple(s) {
+				return false
+			}
+		case *ast.EmptyStmt:
+		default:
+			return false
+		}
+	}
+	return true
+}
+
+func optNat(ok bool, n int) string {
+	if !ok || n < 0 {
+		return "none"
+	}
+	return fmt.Sprintf("some %d", n)
 }
 
 func main() {
@@ -40,90 +263,147 @@ func main() {
 		var b strings.Builder
 		b.WriteString("namespace KG.Gen.C10\n")
 
-		// ---- the controller's worker count
+		// ---- how many workers the controller starts
 		const cfile = "pkg/gateway/controllers/upstream_controller.go"
-		cf := g.ParseFile(cfile)
-		run := lib.FuncDecl(cf, "UpstreamClusterController", "Run")
-		if run == nil {
-			lib.Fatalf("%s: UpstreamClusterController.Run not found", cfile)
-		}
-		workers := -1
-		calls := 0
-		ast.Inspect(run.Body, func(n ast.Node) bool {
-			ce, ok := n.(*ast.CallExpr)
-			if !ok {
-				return true
+		const qfile = "pkg/syncqueue/queue.go"
+		understood, started := false, 0
+		why := ""
+		func() {
+			cf := g.ParseFile(cfile)
+			run := method(cf, "UpstreamClusterController", "Run")
+			if run == nil {
+				why = "UpstreamClusterController.Run not found"
+				return
 			}
-			if render(g, ce.Fun) == "m.queue.Run" {
-				calls++
-				if len(ce.Args) == 1 {
-					if bl, ok := ce.Args[0].(*ast.BasicLit); ok && bl.Kind == token.INT {
-						workers, _ = strconv.Atoi(bl.Value)
+			consts := g.Consts(cfile)
+			arg, nCalls := -1, 0
+			ast.Inspect(run.Body, func(n ast.Node) bool {
+				ce, ok := n.(*ast.CallExpr)
+				if !ok || len(ce.Args) != 1 {
+					return true
+				}
+				sel, ok := ce.Fun.(*ast.SelectorExpr)
+				if !ok || sel.Sel.Name != "Run" {
+					return true
+				}
+				// <receiver>.<some field>.Run(<n>): the controller's queue, whatever it is called
+				if _, ok := sel.X.(*ast.SelectorExpr); !ok {
+					return true
+				}
+				nCalls++
+				switch a := ce.Args[0].(type) {
+				case *ast.BasicLit:
+					if a.Kind == token.INT {
+						arg, _ = strconv.Atoi(a.Value)
+					}
+				case *ast.Ident:
+					if v, ok := consts[a.Name]; ok {
+						if n, err := strconv.Atoi(lib.IntLit(v)); err == nil {
+							arg = n
+						}
 					}
 				}
+				return true
+			})
+			if nCalls != 1 || arg < 0 {
+				why = "the worker count the controller passes to its queue is not a literal / constant of one call"
+				return
 			}
-			return true
-		})
-		if calls != 1 || workers < 0 {
-			lib.Fatalf("%s: expected exactly one m.queue.Run(<integer literal>) in UpstreamClusterController.Run", cfile)
-		}
-		fmt.Fprintf(&b, "/-- `m.queue.Run(%d)` in UpstreamClusterController.Run -/\ndef controllerWorkers : Nat := %d\n", workers, workers)
+			qf := g.ParseFile(qfile)
+			qrun := method(qf, "SyncQueue", "Run")
+			if qrun == nil || len(qrun.Type.Params.List) != 1 || len(qrun.Type.Params.List[0].Names) != 1 {
+				why = "SyncQueue.Run(<one parameter>) not found"
+				return
+			}
+			e := env{qrun.Type.Params.List[0].Names[0].Name: arg}
+			fuel := 10000
+			if !e.run(qrun.Body.List, &started, &fuel) {
+				why = "SyncQueue.Run is not a clamp-and-count function the extractor can execute"
+				started = 0
+				return
+			}
+			understood = true
+			why = fmt.Sprintf("the controller calls its queue's Run(%d), which starts %d worker goroutine(s)", arg, started)
+		}()
+		fmt.Fprintf(&b, "/-- %s -/\ndef workersStarted : Option Nat := %s\n", why, optNat(understood, started))
 
-		// ---- SyncQueue.Run starts exactly `workers` workers
-		const qfile = "pkg/syncqueue/queue.go"
-		qf := g.ParseFile(qfile)
-		qrun := lib.FuncDecl(qf, "SyncQueue", "Run")
-		if qrun == nil || len(qrun.Type.Params.List) != 1 || len(qrun.Type.Params.List[0].Names) != 1 {
-			lib.Fatalf("%s: SyncQueue.Run(<one parameter>) not found", qfile)
-		}
-		param := qrun.Type.Params.List[0].Names[0].Name
-		if len(qrun.Body.List) != 1 {
-			lib.Fatalf("%s: SyncQueue.Run is expected to consist of one for loop, it has %d statements", qfile, len(qrun.Body.List))
-		}
-		fs, ok := qrun.Body.List[0].(*ast.ForStmt)
-		if !ok || fs.Init == nil || fs.Cond == nil || fs.Post == nil || len(fs.Body.List) != 1 {
-			lib.Fatalf("%s: SyncQueue.Run is expected to be `for i := 0; i < %s; i++ { go ... }`", qfile, param)
-		}
-		gs, ok := fs.Body.List[0].(*ast.GoStmt)
-		if !ok || !strings.Contains(render(g, gs.Call), "sq.worker") {
-			lib.Fatalf("%s: the loop of SyncQueue.Run is expected to start one worker goroutine per iteration", qfile)
-		}
-		header := "for " + render(g, fs.Init) + "; " + render(g, fs.Cond) + "; " + render(g, fs.Post)
-		header = strings.ReplaceAll(header, param, "workers")
-		fmt.Fprintf(&b, "/-- the loop header of SyncQueue.Run (parameter renamed to `workers`): %q -/\ndef queueRunLoop : List UInt8 := %s\n", header, leanBytes(header))
-
-		// ---- the SNI verify-options provider is installed by a block of its own
+		// ---- the SNI verify-options provider and the control plane's client-cert configuration
 		const afile = "pkg/gateway/proxy/options/authentication.go"
 		af := g.ParseFile(afile)
-		tac := lib.FuncDecl(af, "AuthenticationOptions", "ToAuthenticationConfig")
-		if tac == nil {
-			lib.Fatalf("%s: AuthenticationOptions.ToAuthenticationConfig not found", afile)
+		res, awhy := "none", "ToAuthenticationConfig not found or the provider field not recognised"
+		if tac := method(af, "AuthenticationOptions", "ToAuthenticationConfig"); tac != nil {
+			// identifiers bound from the control plane's GetClientCert()
+			cpIdents := map[string]bool{}
+			ast.Inspect(tac.Body, func(n ast.Node) bool {
+				if as, ok := n.(*ast.AssignStmt); ok && len(as.Lhs) == 1 && len(as.Rhs) == 1 && strings.Contains(render(g, as.Rhs[0]), "GetClientCert") {
+					if id, ok := as.Lhs[0].(*ast.Ident); ok {
+						cpIdents[id.Name] = true
+					}
+				}
+				return true
+			})
+			mentionsCP := func(is *ast.IfStmt) bool {
+				txt := render(g, is.Init) + " " + render(g, is.Cond)
+				if strings.Contains(txt, "GetClientCert") {
+					return true
+				}
+				found := false
+				ast.Inspect(is.Cond, func(n ast.Node) bool {
+					if id, ok := n.(*ast.Ident); ok && cpIdents[id.Name] {
+						found = true
+					}
+					return true
+				})
+				return found
+			}
+			free, guarded := 0, 0
+			var walk func(n ast.Node, underCP bool)
+			walk = func(n ast.Node, underCP bool) {
+				ast.Inspect(n, func(c ast.Node) bool {
+					if c == n {
+						return true
+					}
+					switch v := c.(type) {
+					case *ast.IfStmt:
+						if v.Init != nil {
+							walk(v.Init, underCP)
+						}
+						walk(v.Body, underCP || mentionsCP(v))
+						if v.Else != nil {
+							walk(v.Else, underCP)
+						}
+						return false
+					case *ast.KeyValueExpr:
+						if strings.Contains(render(g, v.Key), "SNIVerifyOption") {
+							if underCP {
+								guarded++
+							} else {
+								free++
+							}
+						}
+					case *ast.AssignStmt:
+						for _, l := range v.Lhs {
+							if sel, ok := l.(*ast.SelectorExpr); ok && strings.Contains(sel.Sel.Name, "SNIVerifyOption") {
+								if underCP {
+									guarded++
+								} else {
+									free++
+								}
+							}
+						}
+					}
+					return true
+				})
+			}
+			walk(tac.Body, false)
+			switch {
+			case free > 0:
+				res, awhy = "some true", "the SNI verify-options provider is installed by code that is not conditional on the control plane's client-cert configuration"
+			case guarded > 0:
+				res, awhy = "some false", "the SNI verify-options provider is only installed under a condition on the control plane's client-cert configuration"
+			}
 		}
-		own := false
-		assigned := 0
-		ast.Inspect(tac.Body, func(n ast.Node) bool {
-			if kv, ok := n.(*ast.KeyValueExpr); ok && render(g, kv.Key) == "SNIVerifyOptionsPorvider" {
-				assigned++
-			}
-			if as, ok := n.(*ast.AssignStmt); ok && len(as.Lhs) == 1 && strings.HasSuffix(render(g, as.Lhs[0]), ".SNIVerifyOptionsPorvider") {
-				assigned++
-			}
-			return true
-		})
-		for _, st := range tac.Body.List {
-			is, ok := st.(*ast.IfStmt)
-			if !ok || is.Init != nil || render(g, is.Cond) != "sniVerifyOptionsProvider != nil" {
-				continue
-			}
-			body := render(g, is.Body)
-			if strings.Contains(body, "cfg.ClientCert == nil") && strings.Contains(body, "cfg.ClientCert.SNIVerifyOptionsPorvider = sniVerifyOptionsProvider") {
-				own = true
-			}
-		}
-		if assigned == 0 {
-			lib.Fatalf("%s: ToAuthenticationConfig no longer sets SNIVerifyOptionsPorvider anywhere", afile)
-		}
-		fmt.Fprintf(&b, "/-- ToAuthenticationConfig has a top-level `if sniVerifyOptionsProvider != nil` block that creates cfg.ClientCert when needed and installs the provider -/\ndef sniProviderBlockOfItsOwn : Bool := %v\n", own)
+		fmt.Fprintf(&b, "/-- %s -/\ndef sniProviderWithoutControlPlaneCA : Option Bool := %s\n", awhy, res)
 		b.WriteString("end KG.Gen.C10\n")
 		g.Emit("C10.lean", b.String())
 	})
